@@ -101,7 +101,7 @@ fn gen_value_refs(rng: &mut Rng, k: usize) -> Pair {
                 14 => ("(lo..hi ^ mid..hi ^ lo..hi)".to_string(), format!("(1..{lit} ^ 5..{lit} ^ 1..{lit})")),
                 _ => ("(0 | lo | mid | hi)".to_string(), format!("(0 | 1 | 5 | {lit})")),
             };
-            if k % 2 == 0 {
+            if (k / 6) % 2 == 0 {
                 (format!("{decoys}{t} ::= INTEGER {nums} {c_s}\n"), format!("{decoys}{t} ::= INTEGER {nums} {c_e}\n"))
             } else {
                 (format!("{decoys}{t} ::= SEQUENCE {{ f INTEGER {nums} {c_s} }}\n"), format!("{decoys}{t} ::= SEQUENCE {{ f INTEGER {nums} {c_e} }}\n"))
@@ -369,7 +369,7 @@ fn gen_selection(rng: &mut Rng, k: usize) -> Pair {
         let t = &alt_types[pick];
         let sel_t = format!("alt{pick} < {cho}");
         let shape = |x: &str| format!("{sel} ::= SEQUENCE {{ p [0] {x}, q [1] IMPLICIT {x}, r [2] EXPLICIT {x}, s [APPLICATION 3] {x} OPTIONAL }}\n{holder} ::= CHOICE {{ p [0] {x}, q [1] IMPLICIT {x}, r [2] EXPLICIT {x} }}\n");
-        let hdr = ["EXPLICIT TAGS", "IMPLICIT TAGS", "AUTOMATIC TAGS", ""][k % 4];
+        let hdr = ["EXPLICIT TAGS", "IMPLICIT TAGS", "AUTOMATIC TAGS", ""][(k / 6) % 4];
         let before = rng.chance(1, 2);
         let sug = if before { format!("{choice}{}", shape(&sel_t)) } else { format!("{}{choice}", shape(&sel_t)) };
         return Pair { kind: "selection:tagged".into(), sugared: module_h("Sug", hdr, &sug), expanded: module_h("Sug", hdr, &format!("{choice}{}", shape(t))), targets: vec![sel, holder], env: vec![] };
@@ -386,7 +386,7 @@ fn gen_selection(rng: &mut Rng, k: usize) -> Pair {
 }
 
 fn gen_class_field(rng: &mut Rng, k: usize) -> Pair {
-    let cls = format!("{}-CLASS-{}", rng.pick(&["A", "M", "Z"]), ["ONE", "TWO", "THREE"][k % 3]);
+    let cls = format!("{}-CLASS-{}", rng.pick(&["A", "M", "Z"]), ["ONE", "TWO", "THREE"][(k / 6) % 3]);
     let fixed_types = ["INTEGER", "BOOLEAN", "UTF8String", "OCTET STRING", "INTEGER (0..15)"];
     let n_fields = 1 + rng.below(3);
     let tys: Vec<&str> = (0..n_fields).map(|_| *rng.pick(&fixed_types)).collect();
@@ -398,7 +398,8 @@ fn gen_class_field(rng: &mut Rng, k: usize) -> Pair {
     let holder = spell(rng, "Hld", k, true);
     // the holder: SEQUENCE, SET, CHOICE, and the field as the element of a list (member and top level), next to a
     // tagged, constrained neighbour
-    let shape = |a: &str, b: &str| match k % 6 {
+    // (k % 6 selects this family: the shape varies with k / 6)
+    let shape = |a: &str, b: &str| match (k / 6) % 6 {
         0 => format!("SEQUENCE {{ h1 {a}, h2 {b} OPTIONAL }}"),
         1 => format!("SET {{ h1 {a}, h2 {b} OPTIONAL, n [5] INTEGER (0..7) }}"),
         2 => format!("CHOICE {{ h1 [1] {a}, h2 [2] {b}, n [5] INTEGER (0..7) }}"),
@@ -454,14 +455,16 @@ fn gen_combination(rng: &mut Rng, k: usize) -> Pair {
         (format!("{base} ::= SEQUENCE {{ {} }}\n", sug_members.join(", ")), format!("{base} ::= SEQUENCE {{ {} }}\n", exp_members.join(", ")))
     };
     let copied = if base_s.contains(&par) { "p BOOLEAN".to_string() } else { exp_members.join(", ") };
-    let incl_s = format!("{incl} ::= SEQUENCE {{ y BOOLEAN, COMPONENTS OF {base} }}\n");
-    let incl_e = format!("{incl} ::= SEQUENCE {{ y BOOLEAN, {copied} }}\n");
+    // a third of the time the notation stands in a version group, behind a named component of the group
+    let grouped = (k / 6) % 3 == 2;
+    let incl_s = if grouped { format!("{incl} ::= SEQUENCE {{ y BOOLEAN, ..., [[ g NULL, COMPONENTS OF {base} ]] }}\n") } else { format!("{incl} ::= SEQUENCE {{ y BOOLEAN, COMPONENTS OF {base} }}\n") };
+    let incl_e = if grouped { format!("{incl} ::= SEQUENCE {{ y BOOLEAN, ..., [[ g NULL, {copied} ]] }}\n") } else { format!("{incl} ::= SEQUENCE {{ y BOOLEAN, {copied} }}\n") };
     let mut lines = vec![support.clone(), base_s.clone(), incl_s];
     if rng.chance(1, 2) {
         lines.reverse();
     }
     Pair {
-        kind: "combination:components-of-x-other-notation".into(),
+        kind: if grouped { "combination:components-of-in-a-version-group-x-other-notation".into() } else { "combination:components-of-x-other-notation".into() },
         sugared: module("Sug", &lines.concat()),
         expanded: module("Sug", &format!("{support}{base_e}{incl_e}")),
         targets: vec![incl],
